@@ -6,8 +6,8 @@ DRIVER = "drv_mint"
 DRIVER_MODULE = "Driver.Mint"
 PROPS = "RlibModel.Props.C06"
 PROPS_SRC = "RlibModel.Props.C06Src"     # second tie: `src_*` theorems about the definitions regenerated from the source text
-PROFILES = ["release"]
-SHRINK_SEP = None
+PROFILES = ["release", "debug"]     # debug: debug_assert! / cfg(debug_assertions) paths; runs a lighter version of every stream
+SHRINK_SEP = ";"                    # `chain` histories are shrunk by deleting steps (any subsequence is a valid case)
 RULE = ("cases: for every modulus 2..=64 every operand pair x {+,-,*,/,==, assigning forms}, every residue x {neg, inv, Display/Debug}, "
         "every residue x an exponent window + boundary exponents (2^32, 2^63, u64::MAX, ...), a window of constructor arguments; for "
         "998244353, 10^9+7, 2^31-1, 2^31-19, 2^31-2, 2^31-3, 65536, 15015, 2^30, 46341, 46340, 46337: all pairs of ~20 boundary residues (0,1,M-1,M-2,M/2,2^16,46341,...), "
@@ -16,10 +16,29 @@ RULE = ("cases: for every modulus 2..=64 every operand pair x {+,-,*,/,==, assig
         "domain (1, 2^31, 2^31+1, 2^32-1) where the spec says `any` and nothing is compared (results are only shown). inv and / are pinned "
         "(S = ok) only for operands coprime to M; for other operands S and both views say `any`, model = implementation is still compared on raw. "
         "every pair line evaluates + - * / == and += -= *= /=; every io line writes through a real Writer, reads the token and the written bytes through a real Reader. "
+        "wave 3: 40 large moduli (added: every square-root threshold of a narrowed / floating-point product - 181..183 i16, 255..257, 4096..4098 f32, "
+        "32767..32769, 2^24, 2^24+1, 94906266..94906268 f64, 2^29, ceil(2^31/sqrt 2), (2^31+1)/3, floor(2^32/3), Fibonacci F46, 2^31-5); in the quick tier the "
+        "boundary cross products are full for the core values (0..3, M-3..M-1, M/2, 46340, 46341, 2^16) and every value with itself, and a rotating half (pairs) / third "
+        "(base x exponent) of the rest - a different part for every modulus; thorough: everything. New case kinds: `cst M` (ZERO, ONE, md(), ZERO == new(0), ONE == new(1)); "
+        "`chain M v0 ; op ; ...` one accumulator with every result fed back: + - * / by value, assigning, reversed (new(v) - acc, new(v) / acc), the same object on both "
+        "sides (acc * acc, acc *= acc, acc + acc, acc - acc, acc / acc), neg, inv, pow, Clone::clone, clone_from into a fresh and into a used destination, Copy through "
+        "arrays / tuples / Box, Vec clone / clone_from / == / != (also of Option), Writer -> Reader round trip, new(inner()), ZERO, ONE, == and != both ways folded back into the "
+        "value; 6 (small moduli) / 60 (large) random histories of 4..24 steps per modulus and four of 1500 steps; shrunk by deleting steps; inverses only of values "
+        "coprime to M (the generator follows the value), otherwise the whole case is `S any`; `ios M t1..tk` k tokens (boundary constructor arguments, -0, -00, 007, "
+        "leading zeros, random i64; four sequences of 5000) in ONE Reader separated by varying white space, read with read_vec, and alternating Modular / i64 / tuple "
+        "reads, is_eof, the values written as a Vec through ONE Writer and read back; `thr <case>` the case on a freshly spawned thread. Interleaving stream extended: the same "
+        "NON-canonical i64 (new / pair / io) under M1, M2, M2; un under M1, the same on a fresh thread under M2, then on the main thread; the same history under M1, M2, M2. "
+        "Exponents added: 255..257, 65535..65537, 2^32 + small, 2^48+1, 2^53-1..2^53+1, 2^62, 2^63-1, 2^64-2^32, random k*2^s + small. Second build profile `debug` "
+        "(debug_assert!, cfg(debug_assertions)) on a lighter version of every stream. "
         "non-trivial = distinct in-domain case with at least one argument of magnitude > 1")
 ASSUMPTIONS = [
     "the Lean model of rlib_mint is hand-written; it is tied to the code by running both on the same cases",
-    "Modular<M> needs M at compile time: the correspondence covers the compiled-in list of 75 in-domain moduli (the theorems cover all 2 <= M < 2^31)",
+    "Modular<M> needs M at compile time: the correspondence covers the compiled-in list of 103 in-domain moduli (2..=64 and 40 large ones; the theorems cover all 2 <= M < 2^31)",
+    "wave 3: in a `chain` case the harness itself compares the ways of copying a value (Clone::clone, clone_from, Copy, containers) and the two directions of == / != with each other and prints a "
+    "*-MISMATCH / EQ-INCONSISTENT token in place of the value (the model has ONE step `ident` for all of them); the value of every step, inverses and quotients included, is pinned by the "
+    "spec side (specInv: Bezout recursion over unbounded integers, proved equal to the i32 loop for coprime operands - theorems inv_value, step_spec, chain_spec), not by a harness oracle",
+    "`thr` cases are answered by the driver exactly like the case they wrap (thread-local state is not part of the model: any dependence on it is a violation)",
+    "the generator follows the value of a history in u128 arithmetic only to keep inverses in the domain; a wrong generator value can only turn a case into `S any`, never into a verdict",
     "harness built with overflow-checks=true so a wrapped intermediate shows up as panic:overflow instead of a silent wrong value",
     "the decimal token <-> i64 step of Readable/Writable is rlib_io's (properties C08/C09); here the token's value is taken as given",
 ]
@@ -28,13 +47,19 @@ MANIFEST = {
     "text": ("Lean 4 theorems for every modulus 2 <= M < 2^31: new/add/sub/neg/mul return the canonical representative of the true integer "
              "result and none of the u32/i32/i64 overflow checks of the modelled code fires; pow equals a^d mod M for every exponent (the loop is "
              "defined by well-founded recursion, so it terminates); the i32 extended-Euclid loop of inv never overflows, terminates and returns "
-             "r in [0,M) with r*a = gcd(a,M) (mod M); (x/y)*y = x whenever gcd(y,M)=1; equality of representatives is congruence. The hand-written "
+             "r in [0,M) with r*a = gcd(a,M) (mod M); (x/y)*y = x whenever gcd(y,M)=1; equality of representatives is congruence; for coprime operands inv and / are pinned as "
+             "values (the unique canonical inverse, computed by an independent recursion); ZERO/ONE are the canonical 0 and 1; a history of any length that feeds results back "
+             "(all operator spellings, the same object on both sides, copies, re-construction, == folded back) equals the same history over the integers reduced mod M. The hand-written "
              "model is tied to rlib_mint by a differential correspondence run on every check."),
     "note": ("Trusted: Lean kernel, axioms propext/Classical.choice/Quot.sound, the hand-written model (checked against the code on the generated "
              "cases only, for a finite compiled-in list of moduli), harness and driver plumbing. Decimal parsing/printing of the token is C08/C09."),
     "technique": "Lean 4 proof of a hand-written model + differential correspondence check against the Rust crate",
     "design_ref": "DESIGN.md §6 C06",
 }
+
+
+def harness_args(params, profile):
+    return ["--profile", profile]
 
 
 def nontrivial(case, rec):
